@@ -120,7 +120,7 @@ def run(ctx):
                 "0..width-1; accumulators over n in {0,1,15,16,17,33,1000,65536,70001}; loads with offsets/upsampling/resampling index "
                 "functions for n in 0..50; prefixes of length 1..48 must reproduce the full-table run (position/n independence). "
                 "evaluations = result elements compared; distinct non-trivial = opcode forms checked." %
-                ("all 2^32 pairs" if tier == "thorough" else "B16 x all and all x B16"),
+                ("all 2^32 pairs for the x1 form, B16 x all and all x B16 for x2/x4" if tier == "thorough" else "B16 x all and all x B16"),
         "samples": res.samples or [{"note": "none"}],
         "opcodes": int(st.get("opcodes", 0)),
         "documented_rows_compared": len(docs),
